@@ -39,9 +39,19 @@ def install():
 
 def check_identity(rec, viol, counts, only_reported=False):
     """Boundary check on every group of every conformation and AVR."""
+    # a CYS that is bridged in some conformation is fixed at 99.99 there: neither that value nor an
+    # average containing it is a sum of contributions (the statement's exception)
+    bridged_somewhere = set()
+    for cname, conf in rec["confs"].items():
+        if cname != "AVR":
+            for g in conf["groups"]:
+                if g["bridge"]:
+                    bridged_somewhere.add((g["aid"][1], g["aid"][2], g["aid"][3], g["aid"][5], g["type"]))
     for cname, conf in rec["confs"].items():
         for g in conf["groups"]:
             counts["identity_groups"] = counts.get("identity_groups", 0) + 1
+            if cname == "AVR" and (g["aid"][1], g["aid"][2], g["aid"][3], g["aid"][5], g["type"]) in bridged_somewhere:
+                continue
             if g["bridge"]:
                 if abs(g["pka"] - 99.99) > TOL and cname != "AVR":
                     viol.append({"cls": "bridged-cys-not-9999", "msg": "%s %s pKa %.4f" % (cname, g["label"], g["pka"])})
